@@ -1238,9 +1238,18 @@ func (c *Check) dotEdgesDeclared() {
 			if call, ok := ins.(*ssa.Call); ok && call.Call.StaticCallee() != nil && call.Call.StaticCallee().Name() == "addEdge" {
 				addEdge = call
 				for _, a := range call.Call.Args {
+					// the id looked up directly, or the id field of a per-node record looked up
+					if fld, ok := a.(*ssa.Field); ok {
+						a = fld.X
+					}
 					if lk, ok := a.(*ssa.Lookup); ok {
-						if mt, ok := lk.X.Type().Underlying().(*types.Map); ok {
-							if bt, ok := mt.Elem().Underlying().(*types.Basic); ok && bt.Kind() == types.Int {
+						if mt, ok := lk.X.Type().Underlying().(*types.Map); ok && structName(mt.Key()) == "graph.Node" {
+							switch et := mt.Elem().Underlying().(type) {
+							case *types.Basic:
+								if et.Kind() == types.Int {
+									idMap = lk.X
+								}
+							case *types.Struct:
 								idMap = lk.X
 							}
 						}
